@@ -13,6 +13,10 @@ RULE = (
     "one below threshold / type confusion / undelegated role, both signature modes. Oracle = reference delegation model. "
     "distinct = (stratum, mode, untrusted kind, failing conjuncts, #roles, role delegated?, #entries)."
 )
+RULE_ADDENDUM = (
+    "Additional: stale well-formed entries under listed keys that are not needed, entries re-filed under another role's keys after an acceptance, failing-stdout twins, in-place histories of one trusted object, concurrent verification of different roles."
+)
+RULE = RULE + " " + RULE_ADDENDUM
 LIMITS = ["at most 4 roles and 3 keys per role"]
 ASSUMPTIONS = ["reference delegation model, schema, signer"]
 
